@@ -222,7 +222,7 @@ fn pin(c: &Case) -> Case {
 
 /// adversarial layouts: [small files]* b.start b.piece(ends on a chunk edge) c(complete) [more] b.end
 fn adversarial() -> impl Strategy<Value = Program> {
-    let small = || (0u32..60, any::<u16>()).prop_map(|(n, seed)| FileGen { name: NameClass::Ascii, mode: FileMode::OneShot, pieces: vec![Piece { size: SizeSpec::Fixed(n), class: DataClass::Random, seed }] });
+    let small = || (0u32..60, any::<u16>()).prop_map(|(n, seed)| FileGen { name: NameClass::Ascii, mode: FileMode::OneShot, pieces: vec![Piece { size: SizeSpec::Fixed(n), class: DataClass::Random, seed, fake: false }] });
     (
         prop::collection::vec(small(), 0..3),
         (0u8..3, any::<u16>(), prop::collection::vec((prog::fixed_size(), any::<u16>()), 0..2)),
@@ -234,9 +234,9 @@ fn adversarial() -> impl Strategy<Value = Program> {
             let npre = pre.len();
             let npost = post.len();
             let mut files = pre;
-            let mut pieces = vec![Piece { size: SizeSpec::AlignEnd { kind: Boundary::Chunk, k, delta: 0 }, class: DataClass::Random, seed: bseed }];
+            let mut pieces = vec![Piece { size: SizeSpec::AlignEnd { kind: Boundary::Chunk, k, delta: 0 }, class: DataClass::Random, seed: bseed, fake: true }];
             for (n, s) in extra {
-                pieces.push(Piece { size: SizeSpec::Fixed(n), class: DataClass::Mixed, seed: s });
+                pieces.push(Piece { size: SizeSpec::Fixed(n), class: DataClass::Mixed, seed: s, fake: true });
             }
             files.push(FileGen { name: NameClass::Ascii, mode: FileMode::Pieces, pieces });
             files.extend(post);
@@ -265,7 +265,7 @@ fn known_probe(rep: &mut Report) {
         nrecip: 1,
         reader: 0,
         decoys_before: 0,
-        files: vec![FileGen { name: NameClass::Ascii, mode: FileMode::OneShot, pieces: vec![Piece { size: SizeSpec::Fixed(40), class: DataClass::Random, seed: 1 }] }],
+        files: vec![FileGen { name: NameClass::Ascii, mode: FileMode::OneShot, pieces: vec![Piece { size: SizeSpec::Fixed(40), class: DataClass::Random, seed: 1, fake: false }] }],
         order: vec![],
         flushes: vec![],
         end_align: None,
